@@ -13,6 +13,7 @@ mkdir -p "$wt/$demodir"; cp "$cand/$demo" "$wt/$demodir/"
 cd "$wt"
 echo "== demo WITHOUT the change (must pass)"; bash -c "$democmd" > "$cand/demo_without.log" 2>&1; rc_without=$?; tail -3 "$cand/demo_without.log"
 git apply "$cand/patch.diff" || { echo "patch does not apply"; exit 2; }
+git add -- $(git apply --numstat "$cand/patch.diff" | awk '{print $3}')   # files the patch creates must survive the git clean below
 echo "== build"; go build ./... ; rc_build=$?
 echo "== demo WITH the change (must fail)"; bash -c "$democmd" > "$cand/demo_with.log" 2>&1; rc_with=$?; tail -5 "$cand/demo_with.log"
 git clean -fdq   # drop the demonstration files (untracked); the patch itself stays applied
